@@ -8,7 +8,7 @@ from vf.props.common import assume, cover
 
 # event classes that need a connected transport
 MSG_EVENTS = ('open_ok', 'open_badver', 'open_badas', 'open_hold12', 'open_badparam', 'open_short', 'ka', 'upd',
-              'upd_bad', 'notif_ver', 'notif', 'rr', 'rr128', 'hdr_marker', 'hdr_len', 'hdr_type')
+              'upd_bad', 'notif_ver', 'notif', 'rr', 'rr128', 'hdr_marker', 'hdr_len', 'hdr_type', 'badlen')
 
 EVENTS_BY_STATE = {
     S.IDLE: ['start_idlehold', 'manual_start', 'manual_stop'],
@@ -19,10 +19,13 @@ EVENTS_BY_STATE = {
 }
 
 
+BADLEN = [(4, 20), (4, 23), (2, 19), (2, 22), (3, 19), (3, 20), (5, 19), (5, 22)]
+
+
 def oracle_event(ev):
     """(oracle event class, expected subcode or None)"""
     m = {'open_badver': ('open_bad', 1), 'open_badas': ('open_bad', 2), 'open_hold12': ('open_bad', 6),
-         'open_badparam': ('open_bad', 4), 'hdr_marker': ('hdr', 1), 'hdr_len': ('hdr', 2), 'hdr_type': ('hdr', 3)}
+         'open_badparam': ('open_bad', 4), 'hdr_marker': ('hdr', 1), 'hdr_len': ('hdr', 2), 'hdr_type': ('hdr', 3), 'badlen': ('hdr', 2)}
     return m.get(ev, (ev, None))
 
 
@@ -92,6 +95,16 @@ def message_for(ev, w, a, b, c):
     if ev == 'hdr_len':
         assume(0 <= a < 65536 and (a < 19 or a > 4096))
         return S.MARKER + bytes([a // 256, a % 256, cfg.get('hdr_len_type', 4)])
+    if ev == 'badlen':
+        # a length that is inside 19..4096 but not allowed for the message type (RFC 4271 6.1): KEEPALIVE longer than
+        # 19, UPDATE shorter than 23, NOTIFICATION shorter than 21, ROUTE-REFRESH shorter than 23; body octets symbolic
+        typ, length = cfg.get('badlen', (4, 20))
+        body = []
+        for i, x in enumerate([a, b, c][:length - 19]):
+            assume(0 <= x < 256)
+            body.append(x)
+        body += [0] * (length - 19 - len(body))
+        return S.frame(typ, bytes(body))
     if ev == 'hdr_type':
         assume(0 <= a < 256 and a != 1 and a != 2 and a != 3 and a != 4 and a != 5 and a != 128)
         return S.MARKER + struct.pack('!H', 19) + bytes([a])
